@@ -145,3 +145,11 @@ claim("C37", "E3-chain", "exploration", "reference-schedule monitor on the codec
 claim("C43", "E3-chain", "exploration", "export/import round-trip monitor: decoded exported genesis vs decoded live stores, validated by the app's own validators, then a new process initialised from it continues in lockstep with the source node",
       "chaos histories (stake/unstake/jail/slash/param changes/DAO) exported at PRNG-chosen heights: every account, validator (incl. jailed/unstaking), application, parameter, signing info and claim of the live state must appear in the export and vice versa, module ValidateGenesis must accept it, and an importer process fed the same following blocks must report the same record-level state transitions; held-on-observed; two known findings (importer exits)",
       E3NOTE, "DESIGN.md §4 C43")
+ENGINES[-3]["serves_properties"] += ["C31", "C32"]
+CLNOTE = E3NOTE + "; claim/proof transactions are built inside the node process from committed blocks only (chain.DynTx); session membership reference = internal/ref/sessionref over per-block snapshots; leaf-selection reference = chain.RefLeafIndex (own SHA3)"
+claim("C31", "E3-chain", "exploration", "runtime monitor over claim/proof histories for every valid (blocks-per-session, submission-window) pair: what the claim author could know (selector block committed or not) is observed inside the node when each claim is built; paid proofs compared with a reference leaf selection",
+      "15 parameter pairs x PRNG repetitions; claims at every kind of height relative to session end and proof height, including claims whose only genuine leaf is placed at a predicted index; oracle: no accepted claim was written after its selector hash was committed, paid index == reference formula in [0,total), shifted indexes never paid; two known findings (claims are still accepted at the proof height itself); held-on-observed otherwise",
+      CLNOTE, "DESIGN.md §4 C31")
+claim("C32", "E3-chain", "exploration", "per-transaction pre/post oracle on the claims store and the supply over generated claim/proof lifecycles (16 claim classes x 13 proof classes) with an independent session-membership reference",
+      "accepted claims must be after session end, not after maturity, from a reference-session member, for a staked application on a supported chain, within [minimum, allowance]; supply may grow only in an accepted proof with a stored matching claim, the reference index and a leaf of the claimed set, the claim is removed, no (servicer, session) is paid twice, expired claims are removed without minting; one known finding (double payment at the proof height); held-on-observed otherwise",
+      CLNOTE, "DESIGN.md §4 C32")
